@@ -35,6 +35,10 @@ type Result struct {
 	Evals      int64          // enumeration checks: inner cases evaluated by this call (default 1)
 	Nontrivial int64          // enumeration checks: how many of them were non-trivial
 	Notes   []string
+	// FreshConfirm: the failure can only be observed once per process (race
+	// detector reports are de-duplicated); it is confirmed by replaying the
+	// choices in a fresh worker process instead of in place.
+	FreshConfirm bool
 }
 
 // RunFunc performs one controlled execution and judges it.
@@ -298,6 +302,13 @@ func (w *walker) account(s *verifmc.Sched, r *Result, prefix []int) bool {
 		}
 	}
 	if f := failureOf(s, r); f != "" {
+		if r != nil && r.FreshConfirm {
+			choices, _ := choicesOf(s)
+			v := Violation{Scenario: w.j.Scenario, Param: w.j.Param, Choices: choices, Failure: f, Key: r.Key, Notes: append(r.Notes, "needs-fresh-confirm")}
+			st.Violations = append(st.Violations, v)
+			w.cut = true
+			return false
+		}
 		v, herr := confirm(w.run, w.j.Scenario, w.j.Param, s, r, f, w.j.MaxSteps)
 		if herr != "" {
 			st.Errors = append(st.Errors, herr)
@@ -358,6 +369,16 @@ func WorkerMain() {
 			_ = json.Unmarshal(line, &kind)
 			var resp []byte
 			switch kind.Kind {
+			case "replay":
+				var v Violation
+				if e := json.Unmarshal(line, &struct {
+					V *Violation `json:"v"`
+				}{&v}); e != nil {
+					fmt.Fprintln(os.Stderr, "worker: bad job:", e)
+					os.Exit(2)
+				}
+				f, _, _ := Replay(&v)
+				resp, _ = json.Marshal(map[string]string{"failure": f})
 			case "enum":
 				var j enumJob
 				if e := json.Unmarshal(line, &j); e != nil {
@@ -396,6 +417,20 @@ type workerProc struct {
 	out *bufio.Reader
 }
 
+var workerMu sync.Mutex
+var workerSeq int
+var raceLogs []string
+
+// CleanupRaceLogs removes the race-detector log files of this process's workers.
+func CleanupRaceLogs() {
+	for _, rl := range raceLogs {
+		m, _ := filepath.Glob(rl + ".*")
+		for _, f := range m {
+			_ = os.Remove(f)
+		}
+	}
+}
+
 // Workers returns the number of workers to use.
 func Workers() int {
 	if v := os.Getenv("VERIF_WORKERS"); v != "" {
@@ -417,6 +452,16 @@ func startWorker() (*workerProc, error) {
 	}
 	cmd := exec.Command(exe, os.Args[1:]...)
 	cmd.Env = append(os.Environ(), "VERIF_WORKER=1", "GOMAXPROCS=1")
+	if os.Getenv("VERIF_RACE_BUILD") != "" {
+		// race builds: each worker logs detector reports to its own file so that a
+		// report can be attributed to the execution that produced it
+		workerMu.Lock()
+		workerSeq++
+		rl := fmt.Sprintf("/dev/shm/verif-race-%d-%d", os.Getpid(), workerSeq)
+		raceLogs = append(raceLogs, rl)
+		workerMu.Unlock()
+		cmd.Env = append(cmd.Env, "VERIF_RACE_LOG="+rl, "GORACE=log_path="+rl+" halt_on_error=0 exitcode=0")
+	}
 	cmd.Stderr = os.Stderr
 	stdin, err := cmd.StdinPipe()
 	if err != nil {
@@ -606,6 +651,39 @@ func Explore(cfg Config) *Stats {
 			}
 		}
 	}
+	// failures that can be seen only once per process are confirmed in a fresh one
+	var kept []Violation
+	for _, v := range total.Violations {
+		fresh := false
+		for _, n := range v.Notes {
+			if n == "needs-fresh-confirm" {
+				fresh = true
+			}
+		}
+		if !fresh {
+			kept = append(kept, v)
+			continue
+		}
+		wp, err := startWorker()
+		if err != nil {
+			total.Errors = append(total.Errors, "cannot start a worker to confirm a violation: "+err.Error())
+			continue
+		}
+		var resp map[string]string
+		err = wp.call(map[string]interface{}{"kind": "replay", "v": v}, &resp)
+		wp.stop()
+		if err != nil {
+			total.Errors = append(total.Errors, "confirming a violation in a fresh process failed: "+err.Error())
+			continue
+		}
+		if resp["failure"] == "" {
+			total.Errors = append(total.Errors, fmt.Sprintf("NONDETERMINISM: scenario %s: failure %q did not reproduce in a fresh process with choices %v", v.Scenario, firstLine(v.Failure), v.Choices))
+			continue
+		}
+		v.Failure = resp["failure"]
+		kept = append(kept, v)
+	}
+	total.Violations = kept
 	if len(total.Violations) > 0 || len(total.Errors) > 0 {
 		total.Exhaustive = false
 	}
